@@ -447,12 +447,24 @@ def run(ctx, model_ok):
         ("print(-9223372036854775808)\n", "", "103"), ("x := [1]\nprint(x[0] -9223372036854775808)\n", "", "103"),
         ("print(-9223372036854775807 - 1)\n", f"{-MAXI - 1}\n", "0"), ("print(3 -2)\nprint(3 - -2)\nprint([3 -2])\nprint([3, -2])\n", "1\n5\n[\n    1,\n]\n[\n    3,\n    -2,\n]\n", "0"),
     ]
+    # redundant parentheses leave no trace in the tree: any number of them, around any operand, changes nothing
+    for depth in (3, 64, 127, 128, 129, 130, 200, 256, 257, 300, 512, 1000, 3000):
+        op, cl = "(" * depth, ")" * depth
+        edge += [(f"print({op}1 + 2{cl} * 3)\n", "9\n", "0"), (f"print(2 * {op}3 - 1{cl})\n", "4\n", "0"),
+                 (f"x := 5\nprint({op}x{cl} - {op}1 - 1{cl})\n", "5\n", "0"),
+                 (f"xs := [4, 5]\nprint(xs[{op}0 + 1{cl}] - 1 - 1)\n", "3\n", "0"),
+                 (f"fn f(a) {{\n    return a\n}}\nprint(f({op}1{cl}) + {op}f(2) * 2{cl})\n", "5\n", "0")]
+    for depth in (129, 300):          # … spread over several places that are each shallow
+        half = "(" * (depth // 2)
+        flah = ")" * (depth // 2)
+        edge.append((f"print({half}1 + 1{flah} * {half}2 + 1{flah} - {half}{half}1{flah}{flah})\n", "5\n", "0"))
     eres = core.cli_batch([e[0] for e in edge])
     ctx.count("edge-values:cli", len(edge))
     for (src, out, st), r in zip(edge, eres):
         ctx.nontrivial(("edge", src[-40:]))
         if (r["stdout"], r["status"]) != (out, st) or "panicked" in r["stderr"]:
-            ctx.violation(f"C08: the grouping that is evaluated is not the documented one: expected stdout {out!r} and status {st}", src, {"cli": r})
+            ctx.violation(f"C08: the grouping that is evaluated is not the documented one: expected stdout {out!r} and status {st}",
+                          src, {"cli": r, "length": len(src)})
             break
     if model_ok:
         _, edis = tie.run(ctx, [e[0] for e in edge], "edge-values", model_ok)
